@@ -54,7 +54,7 @@ Fixpoint sizeof (c : con) (cx : ctx) (p : path) {struct c} : res Z :=
   | CUnion _ _ | CSelect _ | CGreedyRange _ | CRepeatUntil _ _ | COffsettedEnd _ _
   | CNullTerminated _ _ _ _ _ | CNullStripped _ _ => raise ESizeof p
   | CIfThenElse e a b =>
-      let* v := eval cx e in
+      let* v := catch_key (eval cx e) p in
       if truthy v then sizeof a cx p else sizeof b cx p
   | CSwitch e cases d =>
       catch_key (
@@ -79,7 +79,7 @@ Fixpoint sizeof (c : con) (cx : ctx) (p : path) {struct c} : res Z :=
   | CPointer _ _ | CPeek _ => Ok 0%Z
   | CPrefixed lc c _ => let* a := sizeof lc cx p in let* b := sizeof c cx p in Ok (a + b)%Z
   | CFixedSized len _ =>
-      let* n := eval_int cx len in if (n <? 0)%Z then raise EPadding p else Ok n
+      let* n := catch_key (eval_int cx len) p in if (n <? 0)%Z then raise EPadding p else Ok n
   | CTransformed _ _ da _ ea =>
       match da, ea with
       | Some a, Some b => if Z.eqb a b then Ok b else raise ESizeof p
